@@ -103,6 +103,173 @@ def lookup_dict():
         return None
 
 
+# ------------------------------------------------ whole-state capture of the hook machinery
+#
+# A breadth-first search undoes ONE operation by restoring state, and starts every history from
+# "a fresh process".  Both are only exact if EVERYTHING the hook machinery keeps between calls is
+# put back - not only the containers the unchanged code happens to have today (sys.meta_path,
+# Typechecker.lookup).  So the capture is generic: every global of the hook modules, every
+# attribute of the classes they define, the attribute dictionaries of every live object of those
+# classes that is reachable from them or from the handles the world holds, and the CONTENT of
+# every mutable container reachable that way.  (Used by ForestWorld / CellWorld and by C10's
+# hook-lifecycle route; CacheWorld has its own, older reset.)
+
+HOOK_MODULES = ("jaxtyping._import_hook", "jaxtyping._pytest_plugin", "jaxtyping._ipython_extension")
+
+
+def _hook_modules():
+    common.bind_repo()
+    import jaxtyping._import_hook  # noqa: F401
+    import jaxtyping._pytest_plugin  # noqa: F401
+
+    return [sys.modules[n] for n in HOOK_MODULES if n in sys.modules]
+
+
+def _plain_names(d):
+    return {k: v for k, v in d.items() if not (k.startswith("__") and k.endswith("__"))}
+
+
+class HookState:
+    """One captured state.  `restore()` puts it back in place (same container objects)."""
+
+    MAX_DEPTH = 8
+
+    def __init__(self, roots=()):
+        import collections.abc as cabc
+
+        self._abc = cabc
+        self.entries = []  # (kind, object, saved)
+        self._seen = set()
+        mods = _hook_modules()
+        self._modnames = {m.__name__ for m in mods}
+        for m in mods:
+            self._visit(m, 0)
+        for r in roots:
+            self._visit(r, 0)
+        del self._seen
+
+    def _visit(self, o, depth):
+        if o is None or depth > self.MAX_DEPTH or id(o) in self._seen:
+            return
+        cabc = self._abc
+        if isinstance(o, types.ModuleType):
+            if o.__name__ not in self._modnames:
+                return
+            self._seen.add(id(o))
+            saved = _plain_names(vars(o))
+            self.entries.append(("namespace", o, saved))
+            for v in saved.values():
+                self._visit(v, depth + 1)
+        elif isinstance(o, type):
+            if getattr(o, "__module__", None) not in self._modnames:
+                return
+            self._seen.add(id(o))
+            saved = _plain_names(vars(o))
+            self.entries.append(("namespace", o, saved))
+            for v in saved.values():
+                self._visit(v, depth + 1)
+        elif isinstance(o, (str, bytes, int, float, tuple, frozenset, types.FunctionType, types.BuiltinFunctionType, types.MethodType)):
+            return
+        elif isinstance(o, cabc.MutableMapping):
+            self._seen.add(id(o))
+            try:
+                saved = list(o.items())
+            except Exception:  # noqa: BLE001
+                return
+            self.entries.append(("mapping", o, saved))
+            for _, v in saved:
+                self._visit(v, depth + 1)
+        elif isinstance(o, (cabc.MutableSequence, cabc.MutableSet)) and not isinstance(o, (bytearray,)):
+            self._seen.add(id(o))
+            try:
+                saved = list(o)
+            except Exception:  # noqa: BLE001
+                return
+            self.entries.append(("sequence" if isinstance(o, cabc.MutableSequence) else "set", o, saved))
+            for v in saved:
+                self._visit(v, depth + 1)
+        elif (getattr(type(o), "__module__", "") or "").split(".")[0] == "jaxtyping" and isinstance(getattr(o, "__dict__", None), dict):
+            self._seen.add(id(o))
+            saved = dict(vars(o))
+            self.entries.append(("instance", o, saved))
+            self._visit(type(o), depth + 1)
+            for v in saved.values():
+                self._visit(v, depth + 1)
+
+    def restore(self, clear_caches=False):
+        for kind, o, saved in self.entries:
+            if kind == "namespace":
+                now = _plain_names(vars(o))
+                for k in now:
+                    if k not in saved:
+                        try:
+                            delattr(o, k)
+                        except Exception:  # noqa: BLE001
+                            pass
+                for k, v in saved.items():
+                    if now.get(k, _MISSING) is not v:
+                        setattr(o, k, v)
+                    if clear_caches and hasattr(v, "cache_clear"):
+                        try:
+                            v.cache_clear()
+                        except Exception:  # noqa: BLE001
+                            pass
+            elif kind == "mapping":
+                if len(o) != len(saved) or any(a is not b for a, b in zip(_flat(o.items()), _flat(saved))):
+                    o.clear()
+                    o.update(saved)
+            elif kind == "sequence":
+                if len(o) != len(saved) or any(a is not b for a, b in zip(o, saved)):
+                    o.clear()
+                    o.extend(saved)
+            elif kind == "set":
+                o.clear()
+                o.update(saved)
+            elif kind == "instance":
+                d = vars(o)
+                if len(d) != len(saved) or any(d.get(k, _MISSING) is not v for k, v in saved.items()):
+                    d.clear()
+                    d.update(saved)
+
+    def describe(self):
+        """Small canonical text (for messages): names and sizes of the captured containers."""
+        out = []
+        for kind, o, saved in self.entries:
+            if kind in ("mapping", "sequence", "set") and saved:
+                out.append(f"{kind}[{len(saved)}]")
+        return ",".join(out)
+
+
+_MISSING = object()
+
+
+def _flat(items):
+    for k, v in items:
+        yield k
+        yield v
+
+
+_PRISTINE = []
+
+
+def hook_pristine():
+    """The state of the hook machinery as a fresh interpreter has it.  Captured the first time a
+    world is built in this process - before anything was installed (checked)."""
+    if not _PRISTINE:
+        d = lookup_dict()
+        if d:
+            raise common.HarnessError("hook state captured as 'pristine' although Typechecker.lookup is not empty")
+        if any(_is_jaxtyping_finder(f) for f in sys.meta_path):
+            raise common.HarnessError("hook state captured as 'pristine' although a jaxtyping finder is installed")
+        _PRISTINE.append(HookState())
+    return _PRISTINE[0]
+
+
+def hook_reset():
+    """Give the hook machinery the state a fresh process has."""
+    hook_pristine().restore(clear_caches=True)
+
+
 def pathfinder_index():
     for i, f in enumerate(sys.meta_path):
         if isinstance(f, type) and f.__name__ == "PathFinder":
@@ -159,9 +326,46 @@ def probe_callable(fn, well_typed_first=False) -> str:
     return "noraise"  # dataclass instance
 
 
+def probe_factory(factory, both=False) -> str:
+    """Tag of the callable that `factory()` defines NOW (its def / class statements, and so the
+    decorators the hook put on them, are executed by this call): a well-typed call (which is
+    also what reaches the definitions nested deeper) tells which spy runs; spy-less callables
+    (and, with both=True, all) also get the ill-typed call.  A factory that raises is a result,
+    not a harness problem."""
+    try:
+        fn = factory()
+    except Exception as e:  # noqa: BLE001
+        return f"factory-exc:{type(e).__name__}"
+    t = probe_callable(fn, well_typed_first=True)
+    if both and t in ("A", "B"):
+        t2 = probe_callable(fn)
+        if t2 != t:
+            return f"welltyped:{t}/illtyped:{t2}"
+    return t
+
+
 FUNC_SRC = '''
 def f(x: Float[np.ndarray, "a"], y: Float[np.ndarray, "a"]):
     return (isinstance(x, Float[np.ndarray, "a"]), isinstance(y, Float[np.ndarray, "a"]))
+'''
+
+# Definitions whose def / class STATEMENTS are executed when a function is CALLED (that is, at any
+# later point of the history), at nesting depths 2..4: a class in a function body (`build`), a
+# method of that local class and a def inside that method (`deep`, only reached by a well-typed
+# call).  Together with `make` (a def in a function body) this covers both kinds of statement
+# that carry an injected decorator - def (innermost decorator) and class (outermost) - below a
+# function scope.  Each factory returns a two-array callable, so the same tag probe applies.
+NESTED_SRC = '''
+
+def build():
+    class Local:
+        def call(self, x: Float[np.ndarray, "a"], y: Float[np.ndarray, "a"]):
+            def deep(x: Float[np.ndarray, "a"], y: Float[np.ndarray, "a"]):
+                return (isinstance(x, Float[np.ndarray, "a"]), isinstance(y, Float[np.ndarray, "a"]))
+
+            return deep(x, y)
+
+    return Local().call
 '''
 
 FOREST_SRC = (
@@ -185,6 +389,7 @@ class D:
     x: Float[np.ndarray, "a"]
     y: Float[np.ndarray, "a"]
 '''
+    + NESTED_SRC
 )
 
 # ------------------------------------------------------------------ C11: the forest
@@ -229,6 +434,7 @@ class ForestWorld:
     def __init__(self, parent_tmp):
         import tempfile
 
+        hook_pristine()
         self.root = tempfile.mkdtemp(prefix="c11_", dir=parent_tmp)
         for rel, imports in C11_FILES.items():
             p = os.path.join(self.root, rel)
@@ -278,21 +484,26 @@ class ForestWorld:
         self._purge_all()
         restore_cache_from_source()
         remove_hooks()
-        d = lookup_dict()
-        if d is not None:
-            d.clear()
+        hook_reset()  # the whole hook machinery as a fresh process has it (incl. an empty Typechecker.lookup)
         importlib.invalidate_caches()
         spyck.clear()
         self.records = []
 
+    def _handles(self):
+        out = []
+        for r in self.records:
+            if r["handle"] is not None:
+                out.append(r["handle"])
+            out.extend(r["finders"])
+        return out
+
     def snapshot(self):
         from .fixtures import spyck
 
-        d = lookup_dict()
         return (
             list(sys.meta_path),
             frozenset(self.loaded()),
-            None if d is None else dict(d),
+            HookState(self._handles()),
             [r["alive"] for r in self.records],
             len(spyck.DECOS),
             len(spyck.CALLS),
@@ -301,13 +512,10 @@ class ForestWorld:
     def restore(self, snap):
         from .fixtures import spyck
 
-        meta, loaded, lk, alive, nd, nc = snap
+        meta, loaded, hs, alive, nd, nc = snap
         sys.meta_path[:] = meta
         self._purge(keep=loaded)
-        d = lookup_dict()
-        if d is not None and lk is not None:
-            d.clear()
-            d.update(lk)
+        hs.restore()
         del self.records[len(alive):]
         for r, a in zip(self.records, alive):
             r["alive"] = a
@@ -436,7 +644,7 @@ class ForestWorld:
                 out.append("+".join(r["names"]) + "=" + (r["ck"] or "n") + "!absent")
         return ",".join(out)
 
-    def observe(self, new=(), make_all=False, strict=False):
+    def observe(self, new=(), make_all=False, strict=False, build_new=True):
         """-> (key, tags, extra): tags[m] = tag of m.f for every loaded module.
         Newly loaded modules get the full battery: ill-typed call into f and into
         the dataclass D (must raise iff instrumented with a real checker), and a
@@ -444,18 +652,24 @@ class ForestWorld:
         re-observed at call time: which spy is invoked on a well-typed call, and
         for spy-less modules the ill-typed call (plain vs jaxtyped-only); with
         strict=True they too get the raising ill-typed call.  make_all adds the
-        make() probe for every module."""
+        probes of the definitions made at CALL time - make() (a def in a function
+        body) and build() (a class in a function body, its method, a def inside
+        that method), each called well-typed and (spy-less ones, and all of them
+        with strict=True) ill-typed - for every module;
+        build_new=False leaves build() out for the newly loaded ones."""
         tags, extra = {}, {}
         for m in self.loaded():
             mod = sys.modules[m]
             try:
                 if m in new:
                     tags[m] = probe_callable(mod.f)
-                    extra[m] = dict(D=probe_callable(mod.D), make=probe_callable(mod.make(), well_typed_first=True))
+                    extra[m] = dict(D=probe_callable(mod.D), make=probe_factory(mod.make))
+                    if build_new:
+                        extra[m]["build"] = probe_factory(mod.build)
                 else:
                     tags[m] = probe_callable(mod.f, well_typed_first=not strict)
                     if make_all:
-                        extra[m] = dict(make=probe_callable(mod.make(), well_typed_first=True))
+                        extra[m] = dict(make=probe_factory(mod.make, strict), build=probe_factory(mod.build, strict))
             except Exception as e:  # noqa: BLE001
                 tags[m] = f"probe-exc:{type(e).__name__}"
         key = self.hooks_key() + "|" + ";".join(f"{m}:{tags[m]}" for m in C11_MODULES if m in tags)
@@ -476,6 +690,7 @@ class CellWorld:
 
         import jaxtyping._ipython_extension as ext
 
+        hook_pristine()
         self.shell = InteractiveShell.instance()
         ext.load_ipython_extension(self.shell)
 
@@ -484,9 +699,7 @@ class CellWorld:
 
         self.shell.reset()
         self.shell.ast_transformers = []
-        d = lookup_dict()
-        if d is not None:
-            d.clear()
+        hook_reset()
         spyck.clear()
 
     def apply(self, op):
